@@ -47,7 +47,7 @@ def depth(k):
 def run(ctx):
     repo = ctx.repo
     res = Result(PROP)
-    res.rules = ["G-MEMBER", "G-NODES", "G-SKIP", "G-P01", "G-RADIX", "G-ALIGN", "G-FLOW"]
+    res.rules = ["G-MEMBER", "G-NODES", "G-SKIP", "G-P01", "G-RADIX", "G-ALIGN", "G-FLOW", "G-DISTINCT"]
     res.explanation = (
         "Narrow claim: shape (nesting) of the members handed to the edge-adding methods from kind inference, must-reach of "
         "add_nodes_from on the returned network, agreement of skip-sampling loop conditions with their bounds, the two "
@@ -80,11 +80,96 @@ def run(ctx):
         check_geometric(repo, res)
         check_radix(repo, res)
         check_align(repo, res, fns)
+        check_distinct(repo, res, fns)
         from .common import check_dead_params
 
         nd = check_dead_params(res, PROP, "G-FLOW", fns, "the generated network")
         res.floor("generators checked for dead parameters", nd, 25)
     return res
+
+
+WITH_REPETITION = {"product", "_index_to_edge_prod", "_index_to_edge_partition", "combinations_with_replacement", "choices"}
+
+
+def check_distinct(repo, res, fns):
+    """G-DISTINCT: candidates enumerated WITH repetition (Cartesian products of node groups - the same group can occur
+    twice in a block -, the product / partition index decoders) can name one node several times; stored as a set such a
+    candidate is a smaller edge.  They reach an edge-adding call only under a test on their number of distinct nodes
+    (`len(set(e)) == m`, `len(e) == m` on the set), or through a comprehension filtered that way."""
+    n = 0
+    for fn in fns:
+        sources = set(WITH_REPETITION)
+        tainted = set()
+        stmts = [x for x in ast.walk(fn.node) if isinstance(x, (ast.Assign, ast.For, ast.AugAssign))]
+
+        def expr_tainted(e):
+            for x in ast.walk(e):
+                if isinstance(x, ast.Call) and getattr(x.func, "attr", getattr(x.func, "id", None)) in sources:
+                    return True
+                if isinstance(x, ast.Name) and isinstance(x.ctx, ast.Load) and x.id in tainted:
+                    return True
+            return False
+
+        changed = True
+        while changed:
+            changed = False
+            for st in stmts:
+                if isinstance(st, ast.Assign):
+                    if isinstance(st.value, ast.Name) and st.value.id in sources:
+                        new = {t.id for t in st.targets if isinstance(t, ast.Name)} - sources
+                        if new:
+                            sources |= new
+                            changed = True
+                        continue
+                    if expr_tainted(st.value):
+                        new = {x.id for t in st.targets for x in ast.walk(t) if isinstance(x, ast.Name)} - tainted
+                        if new:
+                            tainted |= new
+                            changed = True
+                elif isinstance(st, ast.For) and expr_tainted(st.iter):
+                    new = {x.id for x in ast.walk(st.target) if isinstance(x, ast.Name)} - tainted
+                    if new:
+                        tainted |= new
+                        changed = True
+        if not tainted and not any(isinstance(x, ast.Call) and getattr(x.func, "attr", getattr(x.func, "id", None)) in sources for x in ast.walk(fn.node)):
+            continue
+        par = {}
+        for p in ast.walk(fn.node):
+            for ch in ast.iter_child_nodes(p):
+                par[ch] = p
+
+        def size_test(t, names):
+            """a comparison of a number of (distinct) elements: len(set(e)) == m, len(e) == m, len(e) == len(set(e))"""
+            for c in ast.walk(t):
+                if isinstance(c, ast.Compare) and len(c.ops) == 1 and isinstance(c.ops[0], (ast.Eq, ast.GtE)):
+                    for side in (c.left, c.comparators[0]):
+                        if isinstance(side, ast.Call) and getattr(side.func, "id", None) == "len" and side.args and (not names or any(isinstance(x, ast.Name) and x.id in names for x in ast.walk(side.args[0]))):
+                            return True
+            return False
+
+        for call in ast.walk(fn.node):
+            if not (isinstance(call, ast.Call) and isinstance(call.func, ast.Attribute) and call.func.attr in ADDERS and call.args):
+                continue
+            a = call.args[0]
+            if not expr_tainted(a):
+                continue
+            n += 1
+            names = {x.id for x in ast.walk(a) if isinstance(x, ast.Name)}
+            ok = False
+            # a comprehension that filters by size
+            for c in ast.walk(a):
+                if isinstance(c, (ast.ListComp, ast.SetComp, ast.GeneratorExp)) and any(size_test(i, set()) for g in c.generators for i in g.ifs):
+                    ok = True
+            # a dominating test in whose body the call sits
+            p, child = par.get(call), call
+            while p is not None and not ok:
+                if isinstance(p, ast.If) and any(child is s or child in list(ast.walk(s)) for s in p.body) and size_test(p.test, names):
+                    ok = True
+                child, p = p, par.get(p)
+            res.inst("G-DISTINCT", f"{fn.fq}:{call.lineno} `{unparse(call, 50)}`: candidates enumerated with repetition are filtered by their number of distinct nodes", ok)
+            if not ok:
+                res.add(mk_finding(PROP, "G-DISTINCT", fn, call, f"{fn.qualname}: `{unparse(call, 60)}` adds candidates that come from an enumeration with repetition (Cartesian product of node groups / product index decoder) without a test on their number of distinct nodes; a candidate that names a node twice - the same group occurs twice in a block - becomes an edge smaller than the requested size", role="distinct"))
+    res.floor("edge-adding calls fed by enumerations with repetition", n, 3)
 
 
 REORDERING = {"unique", "sorted", "sort", "set", "frozenset", "reversed", "argsort", "flip", "shuffle", "permutation"}
